@@ -261,7 +261,7 @@ def main(pid, tier, repo=None):
     rule_region_reset(ctx)
     rule_ecshift(ctx)
     rule_epf_pad(ctx)
-    rule_blend_cache_region(ctx)
+    rule_base_region(ctx)
     from . import fixguards
     fixguards.run(ctx, pid)
     ctx.not_decided("the padding amounts for Gabor / upsampling / chroma upsampling / LF smoothing and the group selection (numeric)")
@@ -433,71 +433,48 @@ def rule_epf_pad(ctx):
                     "filtered from mirrored samples and differ from the full render" % (iters, sorted(steps), need, got), fn=pad_fn)
 
 
-def rule_blend_cache_region(ctx):
-    """the cached blended image of a frame is only handed out for the region it was blended for"""
-    from ..intervals import value_class
-    rid = "R-BLEND-CACHE-REGION"
-    ctx.rule(rid, "RenderedImage::blend(region) caches the blended frame in its render handle.  composite() pads the caller's region with "
-                  "the consuming frame's own filter / upsampling margins before asking its references, so different consumers ask for "
-                  "different regions of one reference.  The cache-hit exit (state Blended -> Ok(clone)) must therefore consult the "
-                  "requested region: on the paths from the function entry to that exit the region value has to take part in a call "
-                  "or comparison (contains / == / intersection ..) other than its own defaulting.  Otherwise a later, larger request gets "
-                  "an image that does not cover it (out-of-range subgrid in blend(), or stale margins)")
-    f = ctx.prog.crate("jxl_render").fn("jxl_render::image::RenderedImage::<S>::blend")
+def rule_base_region(ctx):
+    """blend() takes from the base frame's planes only what they cover"""
+    from .c05 import scalar_taint
+    from ..mirutil import Defs, access_path
+    rid = "R-BASE-REGION"
+    ctx.rule(rid, "blend() cuts the requested region out of the base frame's planes (the plane being blended onto, and the base alpha "
+                  "plane).  A base frame that is not itself composited keeps the buffers it rendered for its own padded region, aligned "
+                  "in its own coordinates, and composite() pads the request with the consuming frame's margins: the request need not be "
+                  "contained in the base planes (different upsampling / filters in the two frames, an offset that is not a multiple of "
+                  "the base frame's alignment).  The region list of the base grid therefore has to flow into a Region::intersection "
+                  "(today: the requested region is intersected with base_grid.regions_and_shifts()[idx] and [alpha]) - on the "
+                  "unrepaired tree it only fed translate(), and the subgrid ran out of range (D41 / D47).  Blending is pointwise, so "
+                  "clipping to what the base covers loses padding only")
+    f = ctx.prog.crate("jxl_render").fn("jxl_render::blend::blend")
     if f is None:
-        ctx.anchor_missing(rid, "jxl_render::image::RenderedImage::<S>::blend")
+        ctx.anchor_missing(rid, "jxl_render::blend::blend")
         return
     ctx.seen(f)
-    region_arg = next((i for i in range(1, f.argc + 1) if "region::Region" in f.local_ty(i)), None)
-    if region_arg is None:
-        ctx.ok(rid, "no-region-parameter", "blend() no longer takes a region: nothing to cache per region", fn=f)
-        return
-    # the cache-hit exit: Ok(Arc::clone(..)) built right after a switch on the render state selected Blended
-    hit = None
+    defs = Defs(f)
+    new_grid_arg = next((i for i in range(1, f.argc + 1) if "&mut jxl_render::image::ImageWithRegion" in f.local_ty(i)), None)
+    seeds = set()
     for b, t in f.calls():
         c = callee(t)
-        if c and c.get("res", c["fn"]).endswith("Arc<T, A> as core::clone::Clone>::clone") and t[4] is not None:
-            nb = t[4]
-            if any(st[0] == "=" and st[1] == [0] and st[2][0] == "agg" and st[2][1][0] == "adt" and st[2][1][2] == "Ok" for st in f.stmts(nb)):
-                hit = nb
-    if hit is None:
-        ctx.ok(rid, "no-cache-hit-exit", "blend() has no exit that returns a cached image", fn=f)
+        if c and c["fn"].endswith("ImageWithRegion::regions_and_shifts") and t[2] and t[3] and len(t[3]) == 1:
+            recv = op_local(t[2][0])
+            ap = access_path(f, defs, recv) if recv is not None else None
+            if not (ap is not None and ap[0] == new_grid_arg and not ap[1]):
+                seeds.add(t[3][0])
+    ctx.count(rid + ".base-region-lookups", len(seeds))
+    if not seeds:
+        ctx.anchor_missing(rid, "regions_and_shifts() of the base grid in blend()")
         return
-    # region values: the parameter, its defaulted form, and their copies
-    reg = set(value_class(f, region_arg))
-    defaulting = set()
+    T = scalar_taint(f, seeds)
+    n = 0
     for b, t in f.calls():
-        if any(op_local(a) in reg for a in t[2]):
-            c = callee(t)
-            if c and c["fn"].split("::")[-1] in ("unwrap_or_else", "unwrap_or", "unwrap_or_default", "map", "clone") and t[3] and len(t[3]) == 1:
-                defaulting.add(b)
-                reg |= set(value_class(f, t[3][0]))
-    on_path = {b for b in f.reachable(0) if hit in f.reachable(b)}
-    consulted = []
-    for b in on_path:
-        if b in defaulting:
-            continue
-        t = f.term(b)
-        if t[0] == "call":
-            ls = [op_local(a) for a in t[2]]
-            # by-reference use
-            refs = set()
-            for st in f.stmts(b):
-                if st[0] == "=" and st[2][0] == "ref" and st[2][2][0] in reg and len(st[1]) == 1:
-                    refs.add(st[1][0])
-            if any(x in reg or x in refs for x in ls):
-                consulted.append(b)
-        for st in f.stmts(b):
-            if st[0] == "=" and st[2][0] == "bin" and (op_local(st[2][2]) in reg or op_local(st[2][3]) in reg):
-                consulted.append(b)
-            if st[0] == "=" and st[2][0] == "use":
-                p = op_place(st[2][1])
-                if p is not None and p[0] in reg and len(p) > 1:
-                    consulted.append(b)         # a field of the region is read
-    if consulted:
-        ctx.ok(rid, "cache-hit-consults-region", "the requested region is used before the cached image is returned", nontrivial=True, fn=f)
+        c = callee(t)
+        if c and c["fn"].endswith("region::Region::intersection") and any(op_local(a) in T for a in t[2] if op_local(a) is not None):
+            n += 1
+    ctx.count(rid + ".intersections", n)
+    if n:
+        ctx.ok(rid, "base-region-intersected", "%d Region::intersection call(s) take the base grid's regions" % n, nontrivial=True, fn=f)
     else:
-        ctx.bad(rid, "cache-hit-ignores-region", "RenderedImage::blend returns the cached blended image without looking at the requested "
-                "region: a frame first blended for a small region (a consumer without filter margins, or a crop) is later handed to a "
-                "consumer that needs a larger one, and blend() takes an out-of-range subgrid of it (panic) or composes stale margins",
-                fn=f, pos=f.term_pos(hit))
+        ctx.bad(rid, "base-region-unchecked", "blend() never intersects the requested region with the regions of the base frame's planes: a "
+                "request that sticks out of them (base and new frame padded / aligned differently) takes an out-of-range subgrid", fn=f)
+    ctx.floor(rid + ".base-region-lookups", 3)
